@@ -7,7 +7,7 @@ SELECT = r'^bluetoe::server::(l2cap_output|notify|indicate|find_notification_dat
 UNITS = lambda u: u in ('w_inst_att',) or u.startswith('t_att_notification') or u.startswith('t_att_indication') or u.startswith('t_att_outgoing') or u.startswith('t_att_find_notification')
 FN = 'bluetoe::details::find_notification_data_in_list::'
 EXACT = ('order-witness',)   # verdicts computed from the meaning of the code (compiler / folding / symbolic terms): not gated by the golden structure
-ALSO = [('C09', ('packing-shape',))]   # 'sent only to a subscribed connection' needs the stored subscription bits of one CCCD not to leak into its neighbours: decided by C09's rule, run here as well
+ALSO = [('C09', ('packing-shape',)), ('C12', ('priority-chaining', 'entry-addressing'))]   # 'sent only to a subscribed connection' needs the stored subscription bits of one CCCD not to leak into its neighbours: decided by C09's rule, run here as well
 META = {
     'level': 'index-space agreement: the three producers of notification_data (lookup by bound value, by CCCD index and by characteristic UUID) iterate lists of one order class - the priority-sorted list '
              'and the list derived from it - which is also the order of cccd_indices used by the CCCD attributes; compiler-evaluated witness for declarations with priorities: the i-th entry of the list the '
